@@ -298,6 +298,94 @@ def run_driver(chk):
     chk.assumptions += ["Serializer.hpp is parsed through probes/serializer_probe.cpp (no library unit includes it); its member templates are analysed uninstantiated"]
 
 
+def run_packer(chk):
+    """C11.packer: the byte-level packer transfers every bit of a std::bitset."""
+    r = chk.rule("C11.packer", "MemPacker, std::bitset<Size>: packSize, pack and unpack move the same number of bytes, and that number holds all Size bits for every instantiated Size (3, 4, 10, NumFip): either the whole to_ullong() value through Packing<true, unsigned long long>, or a byte count c(Size) with 8 c(Size) >= Size (evaluated for the instantiated sizes as the compiler would)", floor=4)
+    fx = chk.facts(["opm/common/utility/MemPacker.cpp"], files_re="^/repo/opm/(common/utility/MemPacker|input/eclipse/EclipseState/IOConfig/FIPConfig)")
+    sizes = {}
+    for k in fx.recs:
+        m = re.search(r"Packing<false, std::bitset<(\w+)>>$", k)
+        if m:
+            v = m.group(1)
+            if v.isdigit():
+                sizes[v] = int(v)
+            else:
+                cv = [x for x in fx.vars if x["n"] == v and "ev" in x]
+                if not cv:
+                    raise core.AnalysisBroken("MemPacker: the value of %s (a bitset size) is not a compile-time constant in the facts" % v)
+                sizes[v] = int(cv[0]["ev"])
+    if len(sizes) < 3:
+        raise core.AnalysisBroken("MemPacker: explicit instantiations of the bitset packer not found (%s)" % sizes)
+    fns = {f["n"]: f for f in fx.fns if "bitset" in f["q"] and f["file"].endswith("MemPacker.cpp") and f.get("body") and f["n"] in ("pack", "packSize", "unpack")}
+    if sorted(fns) != ["pack", "packSize", "unpack"]:
+        raise core.AnalysisBroken("MemPacker: bitset packer functions found: %s" % sorted(fns))
+    helpers = {f["n"]: f for f in fx.fns if f["file"].endswith("MemPacker.cpp") and f.get("body") and not f.get("cls")}
+
+    def const_eval(e, size, depth=0):
+        e = strip(e)
+        k = e.get("k")
+        if "ev" in e and k != "Ref":
+            return int(e["ev"])
+        if k == "Int":
+            return int(e["v"])
+        if k == "Ref":
+            if e.get("n") in ("Size", "_Nb"):
+                return size
+            if "ev" in e:
+                return int(e["ev"])
+            if e.get("n") == "CHAR_BIT":
+                return 8
+            return None
+        if k == "Un" and e.get("op") == "sizeof":
+            t = (e.get("of") or e.get("t") or "")
+            return {"unsigned long long": 8, "unsigned long": 8, "char": 1, "int": 4}.get(t)
+        if k in ("Bin", "OpCall") and e.get("op") in ("+", "-", "*", "/", "%"):
+            a, b = (const_eval(x, size, depth) for x in (e.get("c") or e.get("a")))
+            if a is None or b is None:
+                return None
+            return {"+": a + b, "-": a - b, "*": a * b, "/": a // b if b else None, "%": a % b if b else None}[e["op"]]
+        if k == "Call":
+            nm = (e.get("fn") or (e.get("callee") or {}).get("n") or "").split("::")[-1].split("<")[0]
+            args = [const_eval(a, size, depth) for a in e.get("a") or [] if a.get("k") != "DefArg"]
+            if nm in ("max", "min") and len(args) == 2 and None not in args:
+                return max(args) if nm == "max" else min(args)
+            if nm in helpers and depth < 3:
+                rets = [r_ for r_ in walk(helpers[nm]["body"]) if r_["k"] == "Return" and r_.get("e") is not None]
+                if len(rets) == 1:
+                    return const_eval(rets[0]["e"], size, depth + 1)
+        return None
+    modes = {}
+    for nm, f in fns.items():
+        def callee_name(c):
+            cal = c.get("callee") or {}
+            return c.get("fn") or ((cal.get("qual") or "") + (cal.get("n") or ""))
+        inner = [c for c in walk(f["body"]) if c["k"] == "Call" and re.search(r"Packing<true, ?([\w ]+)>::%s$" % nm, callee_name(c))]
+        if len(inner) != 1:
+            raise core.AnalysisBroken("MemPacker bitset %s: the forwarding call to Packing<true, T>::%s was not found" % (nm, nm))
+        T = re.search(r"Packing<true, ?([\w ]+)>", callee_name(inner[0])).group(1).strip()
+        args = [a for a in inner[0].get("a") or [] if a.get("k") != "DefArg"]
+        if T in ("unsigned long long", "unsigned long", "uint64_t", "std::uint64_t"):
+            whole = nm == "unpack" or any(meth(x)[0] in ("to_ullong", "to_ulong") for x in walk(args[0]))
+            modes[nm] = ("integer:" + T, {k_: 64 for k_ in sizes} if whole else None, inner[0]["l"])
+        elif T == "char" and len(args) >= 2:
+            cnt = args[1]
+            modes[nm] = ("bytes", {k_: (8 * const_eval(cnt, v_) if const_eval(cnt, v_) is not None else None) for k_, v_ in sizes.items()}, inner[0]["l"])
+        else:
+            modes[nm] = ("other:" + T, None, inner[0]["l"])
+    kinds = {m[0] for m in modes.values()}
+    chk.instance(r, "agreement", sample=dict(modes={k_: v_[0] for k_, v_ in modes.items()}))
+    if len(kinds) != 1:
+        chk.violation(r, "agreement", "the bitset packer's packSize / pack / unpack use different representations (%s): the buffer positions of writer and reader drift apart" % {k_: v_[0] for k_, v_ in modes.items()}, fns["pack"]["file"], fns["pack"]["l"])
+    for sz_name, sz in sorted(sizes.items()):
+        key = "bitset<%s>" % sz_name
+        bits = {nm: (m[1] or {}).get(sz_name) for nm, m in modes.items()}
+        chk.instance(r, key, sample=dict(size=sz, bits_transferred=bits))
+        if any(b is None for b in bits.values()):
+            raise core.AnalysisBroken("MemPacker bitset<%s>: the number of transferred bits could not be evaluated (%s)" % (sz_name, bits))
+        if len(set(bits.values())) != 1 or min(bits.values()) < sz:
+            chk.violation(r, key, "std::bitset<%s> (%d bits) is transferred as %s bits (packSize/pack/unpack): the flags in the upper bits do not survive the round trip (equal lengths, so nothing throws)" % (sz_name, sz, bits), fns["pack"]["file"], modes["pack"][2])
+
+
 def run(chk):
     units = core.library_units()
     fx = chk.facts(units, files_re="^/repo/opm/", fn_re=r"::(serializeOp|operator==)$", rest_light=True)
@@ -493,6 +581,7 @@ def run(chk):
             else:
                 chk.info("C11.exempt", "exemption %s::%s not needed on this tree" % k)
     run_driver(chk)
+    run_packer(chk)
     chk.assumptions += [
         "clang 14 AST of the library units with the build's flags (HAVE_QUAD instantiations excluded)",
         "tables/c11_exempt.json: members that are process-local, derived, or documented as distributed separately",
